@@ -501,6 +501,12 @@ class Executor(MatchMixin, ExprMixin):
     def is_opaque_stmt(self, s) -> bool:
         """the statement only computes / updates locals the contract declares opaque (no effect on modelled state)"""
         opq = set(self.cur.opaque) if self.cur and self.cur.opaque else set()
+        if opq and isinstance(s, ast.If) and not s.orelse and s.body and all(self.is_opaque_stmt(b) for b in s.body):
+            # `if <test over opaque locals / re>: <opaque statements>`: whether the branch is taken only changes opaque locals
+            tnames = {n.id for n in ast.walk(s.test) if isinstance(n, ast.Name)}
+            tcalls = [n for n in ast.walk(s.test) if isinstance(n, ast.Call)]
+            if tnames <= opq | {"re"} and all(isinstance(c.func, ast.Attribute) and isinstance(c.func.value, ast.Name) and c.func.value.id in opq | {"re"} for c in tcalls):
+                return True
         if not opq or not isinstance(s, (ast.Assign, ast.AugAssign, ast.AnnAssign, ast.Expr, ast.For)):
             return False
         names, attrs, calls = self.assigned_in([s])
